@@ -47,6 +47,8 @@ pub mod sec_stubs;
 pub mod c17_gate;
 #[cfg(feature = "security")]
 pub mod c18_access;
+#[cfg(feature = "security")]
+pub mod c19_auth;
 pub mod c20_waitack;
 
 use std::fmt::Write as _;
@@ -183,6 +185,8 @@ pub fn registry() -> Vec<Property> {
   v.push(c17_gate::property());
   #[cfg(feature = "security")]
   v.push(c18_access::property());
+  #[cfg(feature = "security")]
+  v.push(c19_auth::property());
   v.push(c20_waitack::property());
   v
 }
